@@ -22,6 +22,7 @@ VARIABLES ms,             \* the machine state
           who             \* [kind, app] of the step that led here
 vars == <<ms, who>>
 
+SimChips == {<<0, 0, 4>>, <<1, 0, 3>>}
 SmallChips == {<<0, 0, 3>>, <<1, 0, 2>>}        \* for the cfgs (which cannot write tuples)
 TinyChips == {<<0, 0, 2>>, <<1, 0, 1>>}
 OneChip == {<<0, 0, 2>>}
@@ -34,7 +35,9 @@ DInit == ms = Empty /\ who = [kind |-> "init", app |-> 0]
 
 DLoad(app, cores, wait) ==
     /\ cores # {} /\ \A k \in cores : ~HeldByOther(k, app)
-    /\ ms' = Loaded(ms, cores, app, wait)
+    \* (rig loads the cores waiting and, unless asked to leave them so, sends the start signal - which reaches
+    \* every waiting core of the application, also those of earlier loads)
+    /\ ms' = IF wait THEN Loaded(ms, cores, app, TRUE) ELSE Signal(Loaded(ms, cores, app, TRUE), 3, app)
     /\ who' = [kind |-> "load", app |-> app]
 DSignal(name, app) ==
     /\ ms' = IF name = "stop" /\ Variant = "stop-cores-only"
